@@ -26,6 +26,13 @@ pub const ROLL: &[RollFn] = &[
     f("ts_vstd", true, 2), f("ts_vvar", true, 2), f("ts_vskew", true, 3), f("ts_vkurt", true, 4),
     f("ts_sum", false, 1), f("ts_mean", false, 1), f("ts_ewm", false, 1), f("ts_wma", false, 1),
     f("ts_std", false, 2), f("ts_var", false, 2), f("ts_skew", false, 3), f("ts_kurt", false, 4),
+    RollFn { name: "ts_vmin", arity: 1, nullable: true, exact: true, family: "cmp", pow: 1, mp_none_needs_len_ge_w: true, extra: "" },
+    RollFn { name: "ts_vmax", arity: 1, nullable: true, exact: true, family: "cmp", pow: 1, mp_none_needs_len_ge_w: true, extra: "" },
+    RollFn { name: "ts_vargmin", arity: 1, nullable: true, exact: true, family: "cmp", pow: 1, mp_none_needs_len_ge_w: true, extra: "" },
+    RollFn { name: "ts_vargmax", arity: 1, nullable: true, exact: true, family: "cmp", pow: 1, mp_none_needs_len_ge_w: true, extra: "" },
+    RollFn { name: "ts_vrank", arity: 1, nullable: true, exact: true, family: "cmp", pow: 1, mp_none_needs_len_ge_w: true, extra: " pct=0 rev=0" },
+    RollFn { name: "ts_vminmaxnorm", arity: 1, nullable: true, exact: false, family: "norm", pow: 1, mp_none_needs_len_ge_w: false, extra: "" },
+    RollFn { name: "ts_vzscore", arity: 1, nullable: true, exact: false, family: "norm", pow: 2, mp_none_needs_len_ge_w: false, extra: "" },
     // CATALOG-APPEND (entries of merged properties go above this line)
 ];
 
